@@ -82,7 +82,7 @@ func c15Online(s c15State) string {
 	return string(b)
 }
 
-func canon(js string) string {
+func c15Canon(js string) string {
 	var v any
 	if err := json.Unmarshal([]byte(js), &v); err != nil {
 		return "!" + js
@@ -114,7 +114,7 @@ var c15Model = lin.Model[c15State]{
 			return n, ok
 		case "traffic":
 			clear := op.In.(bool)
-			if canon(op.Out.(string)) != c15Snap(s) {
+			if c15Canon(op.Out.(string)) != c15Snap(s) {
 				return s, false
 			}
 			if clear {
@@ -127,7 +127,7 @@ var c15Model = lin.Model[c15State]{
 			}
 			return n, op.Out.(int) == 200
 		case "online":
-			return s, canon(op.Out.(string)) == c15Online(s)
+			return s, c15Canon(op.Out.(string)) == c15Online(s)
 		case "state":
 			r := op.In.(c15Report)
 			if r.tx == 1 {
@@ -299,7 +299,7 @@ func c15Scenarios() []*explore.Scenario {
 				func() { d.state(3, "v", true); d.online(3); d.state(3, "v", false) },
 				func() { d.online(4); d.online(4) },
 			)
-			if _, body := d.get("/online"); canon(body) != "{}" {
+			if _, body := d.get("/online"); c15Canon(body) != "{}" {
 				e.Fail("online map not empty after all disconnects: %s", body)
 			}
 		}},
@@ -325,7 +325,7 @@ func c15Scenarios() []*explore.Scenario {
 				func() { d.state(3, "u", true); d.state(3, "u", false) },
 				func() { d.online(4); d.traffic(4, true) },
 			)
-			if _, body := d.get("/online"); canon(body) != "{}" {
+			if _, body := d.get("/online"); c15Canon(body) != "{}" {
 				e.Fail("online map not empty after all disconnects: %s", body)
 			}
 		}},
